@@ -250,6 +250,9 @@ fn replay_one(report: &mut Report, v: &Value) {
 
 /// thorough tier: coverage-guided campaign with the libFuzzer target (same decoder)
 fn fuzz_campaign(report: &mut Report) {
+    if report.findings.is_open("C17", "typename-less-spread-cycle-stack-overflow") {
+        std::env::set_var("VERIF_C17_SKIP_KNOWN", "1");
+    }
     match crate::fuzz::run_target("c17_codegen", report.seed, 3_000_000, 20) {
         Err(e) => {
             report.assumptions.push(format!("libFuzzer tier unavailable, proptest campaign only: {}", e));
